@@ -247,7 +247,7 @@ theorem shape_wf (font : Font) (text : List Nat) (fuel : Nat) (dir : Nat) {c : C
     · cases e
     · cases e
     · rename_i c1 h1
-      have w1 : WF c1.seg := runPhase_spec _ _ _ _ _ _ _ (initSeg_wf font text dir) h1
+      have w1 : WF c1.seg := runPhase_spec _ _ _ _ _ _ _ (startMirror_wf font (initSeg_wf font text dir)) h1
       split at e
       · cases e
       · rename_i seg' ci' hre
